@@ -126,6 +126,9 @@ def run(ctx):
     sets.append(Set1(P1.gen_files(rng, 3), 99))
     sets.append(Set1(P1.gen_files(rng, 12, allow_big=False), 4))
     sets.append(Set1([("only.bin", L.gen_content(rng, "random", 20000)), ("empty.dat", b"")], 2))
+    # the shortest names there are (1-3 UTF-16 units each): every size bound derived from "bytes per entry" is at its edge
+    sets.append(Set1([("a", L.gen_content(rng, "random", 9)), ("b1", L.gen_content(rng, "random", 30)), ("世界", L.gen_content(rng, "lowent", 17)), ("x.y", b"q"), ("é", L.gen_content(rng, "random", 5))], 2))
+    sets.append(Set1([("z", L.gen_content(rng, "random", 12))], 1))
     boundary = Set1([("k16383", L.gen_content(rng, "random", 16383)), ("k16384", L.gen_content(rng, "random", 16384)),
                      ("k16385", L.gen_content(rng, "random", 16385))], 3)
     sets.append(boundary)
@@ -494,6 +497,25 @@ def c19_part(ctx, vh, model, report, extra):
                 fs[D + "/c"] = b"XXXXX"
             fs.update(a)
             cases.append((desc + "|" + dstate, fs, P1.line_verify("mem", D + "/arc.par", True, fs), P1.line_repair("mem", D + "/arc.par", dstate == "damaged", fs)))
+    # sets that REALLY have 254..257 file entries (the count field alone is rejected by the size bound): the limits of the
+    # shard tables are reached only by an index of that many entries
+    contents = {id(c): set(data_fs.values()) for c in cases}
+    for nent in (254, 255, 256, 257):
+        mf = [("f%03d" % k, bytes([k % 251 + 1, (k * 7) % 256]), True) for k in range(nent)]
+        ms = P1.SpecSet1(mf, 1)
+        try:
+            marc = ms.archive("many")
+        except Exception:
+            marc = {D + "/many.par": ms.index()}
+        mfs = {D + "/" + n: d for n, d, _ in mf}
+        for dstate in ("intact", "missing"):
+            fs = dict(mfs)
+            if dstate == "missing":
+                fs.pop(D + "/f007")
+            fs.update(marc)
+            c = ("entries=%d|%s" % (nent, dstate), fs, P1.line_verify("mem", D + "/many.par", True, fs), P1.line_repair("mem", D + "/many.par", False, fs))
+            cases.append(c)
+            contents[id(c)] = set(mfs.values())
     import os
     aenv = dict(os.environ, VH_ALLOC="1")
     vi = ctx.run_lines(vh, [c[2] for c in cases], timeout=3000, env=aenv, vmem_kb=6 << 20)
@@ -501,7 +523,8 @@ def c19_part(ctx, vh, model, report, extra):
     vm = ctx.run_lines(model, [c[2] for c in cases], timeout=3000)
     rm = ctx.run_lines(model, [c[3] for c in cases], timeout=3000)
     acc = 0
-    for (desc, fs, vl, rl), a, b, x, y in zip(cases, vi, vm, ri, rm):
+    for case_, a, b, x, y in zip(cases, vi, vm, ri, rm):
+        (desc, fs, vl, rl) = case_
         pv, px = L.parse_result(a), L.parse_result(x)
         ctx.count("p1c19|" + desc, not desc.startswith("baseline"))
         acc += pv["res"] == "ok"
@@ -515,7 +538,7 @@ def c19_part(ctx, vh, model, report, extra):
         for p, d in px["changed"].items():
             if not p.startswith(D + "/") or p.endswith(".par") or ".p0" in p:
                 bad = "PAR1 Repair wrote a path that is not a data file in the set directory: %s" % p
-            elif d not in data_fs.values():
+            elif d not in contents[id(case_)]:
                 bad = "PAR1 Repair wrote bytes that are not the content of any protected file: %s" % p
         if pv["changed"]:
             bad = "PAR1 Verify modified files"
